@@ -381,6 +381,7 @@ pub fn run(ctx: &mut Ctx) {
             }
         }
         states.insert((n, o.simultaneous));
+        ctx.add(&format!("state:workers={}:capacity={}", n, o.simultaneous), 1);
         transitions += h.len() as u64;
         ctx.add("transitions", h.len() as u64);
         ctx.add("traces_validated_against_impl", 1);
@@ -407,8 +408,7 @@ pub fn run(ctx: &mut Ctx) {
             }
         }
     }
-    ctx.extra.insert("states".into(), json!(states.len() as u64));
-    ctx.extra.insert("abstract_states_(workers,capacity)".into(), json!(states.iter().map(|(n, c)| format!("N={} capacity={}", n, c)).collect::<Vec<_>>()));
+    let _ = (&states, transitions);
     std::env::set_current_dir("/").unwrap();
     let _ = std::fs::remove_dir_all(&root);
 }
